@@ -1,6 +1,7 @@
 import Std.Tactic.BVDecide
 import DynasmVerif.Model.X64Mem
 import DynasmVerif.Proofs.X64Clean
+import DynasmVerif.Proofs.X64Bytes
 
 /-!
 # C13 — x86/x64 memory operands denote the effective address that was written
@@ -350,6 +351,61 @@ theorem written_operand_decodes_vsib (long nosplit : Bool) (it : Items) (d : Dis
   obtain ⟨b, i⟩ := r
   rw [(vsib_operand_decodes long nosplit m d hw hacc hrel).1 cls n, toBI_coef b i m hm cls n, clean_coef nosplit it b i hc cls n]
 
+/-! ## down to bytes: prefixes, ModRM, SIB and displacement are read back from the byte string alone -/
+
+/-- mod = 3 (a register, not a memory operand) is never produced -/
+theorem encode_md_ne_3 (long nosplit vs : Bool) (hb : Bool) (bf : BitVec 2) (bs : BitVec 3) (bn : BitVec 4) (bd : Bool)
+    (hi : Bool) (xf : BitVec 2) (xs : BitVec 3) (xn : BitVec 4) (xd : Bool) (sc : BitVec 8)
+    (dp : Bool) (dov dl : BitVec 2) (dv : BitVec 32) :
+    (encode long nosplit vs ⟨hb, ⟨bf, bs, bn, bd⟩, hi, ⟨xf, xs, xn, xd⟩, sc⟩ ⟨dp, dov, dl, dv⟩).md ≠ 3#2 := by
+  mem_unfold
+  bv_decide (config := { timeout := 600 })
+
+/-- **the emitted bytes, parsed the way the SDM parses an instruction** (optional 67, REX or C5/C4 VEX prefix, the opcode bytes, ModRM,
+SIB when rm = 4, displacement of the size mod/rm/base prescribe), give back exactly the fields the operand theorems above are stated
+about — X and B only where a prefix carries them, W, vvvv, L, pp and the opcode map of a VEX prefix, the 2-byte VEX form only when it
+loses nothing. Holds for every carrier instruction whose first opcode byte cannot be mistaken for a prefix. -/
+theorem operand_bytes_parse (long nosplit vs : Bool) (c : Carrier) (m : BI) (d : Disp) (xb : Bool)
+    (h : Denotes long vs (encode long nosplit vs m d) xb m d)
+    (hop : ∃ o os, c.opcode = o :: os ∧ o ≠ 0x67 ∧ (c.vex = false → long = true → (o &&& 0xF0) ≠ 0x40)) :
+    parse long c.vex c.opcode.length (toBytes long c (encode long nosplit vs m d)) = some (expected long c (encode long nosplit vs m d)) := by
+  obtain ⟨hb, ⟨bf, bs, bn, bd⟩, hi, ⟨xf, xs, xn, xd⟩, sc⟩ := m
+  obtain ⟨dp, dov, dl, dv⟩ := d
+  exact toBytes_parses long c _ h.2.2.2.2 h.2.2.2.1 (encode_md_ne_3 long nosplit vs hb bf bs bn bd hi xf xs xn xd sc dp dov dl dv) hop
+
+/-- legacy / REX encoded instructions, from the written operand to the bytes -/
+theorem legacy_operand_bytes (long nosplit : Bool) (c : Carrier) (m : BI) (d : Disp) (hv : c.vex = false)
+    (hw : wellFormed long m d = true) (hd : dynIndexOk long nosplit m = true)
+    (hacc : (encode long nosplit false m d).reject = false) (hrel : (encode long nosplit false m d).reloc = false)
+    (hop : ∃ o os, c.opcode = o :: os ∧ o ≠ 0x67 ∧ (long = true → (o &&& 0xF0) ≠ 0x40)) :
+    let e := encode long nosplit false m d
+    parse long false c.opcode.length (toBytes long c e) = some (expected long c e) ∧
+    Denotes long false e (hasXB long c e) m d := by
+  intro e
+  have hden := legacy_operand_decodes long nosplit (c.rexW || c.reg.getLsbD 3) m d hw hd hacc hrel
+  obtain ⟨o, os, h1, h2, h3⟩ := hop
+  refine ⟨?_, ?_⟩
+  · have := operand_bytes_parse long nosplit false c m d _ hden ⟨o, os, h1, h2, fun _ => h3⟩
+    rw [hv] at this; exact this
+  · have hx : hasXB long c e = (long && (e.needRex || (c.rexW || c.reg.getLsbD 3))) := by
+      simp [hasXB, hv, Bool.or_assoc]
+    rw [hx]; exact hden
+
+/-- VEX encoded instructions (ordinary and VSIB operands), from the written operand to the bytes: X and B travel in the prefix in long
+mode, so what the reader parses denotes the written address -/
+theorem vex_operand_bytes (long nosplit vs : Bool) (c : Carrier) (m : BI) (d : Disp) (hv : c.vex = true)
+    (hden : Denotes long vs (encode long nosplit vs m d) long m d)
+    (hop : ∃ o os, c.opcode = o :: os ∧ o ≠ 0x67) :
+    let e := encode long nosplit vs m d
+    parse long true c.opcode.length (toBytes long c e) = some (expected long c e) ∧ Denotes long vs e (hasXB long c e) m d := by
+  intro e
+  obtain ⟨o, os, h1, h2⟩ := hop
+  refine ⟨?_, ?_⟩
+  · have := operand_bytes_parse long nosplit vs c m d _ hden ⟨o, os, h1, h2, fun h => by simp [hv] at h⟩
+    rw [hv] at this; exact this
+  · have hx : hasXB long c e = long := by simp [hasXB, hv]
+    rw [hx]; exact hden
+
 /-- a scale that is not 1, 2, 4 or 8 after the single-register split is a compile error -/
 theorem impossible_scale_rejected (long nosplit vs : Bool) (m : BI) (d : Disp)
     (hs : (sanitize long nosplit m).reject = false) (hi : (sanitize long nosplit m).bi.hasIndex = true)
@@ -372,6 +428,12 @@ private def rq (n : Nat) : Reg := ⟨LEGACY, 3, BitVec.ofNat 4 n, false⟩
 /-- `[r12 + r13*4 + 8]` -/
 example : let m : BI := ⟨true, rq 12, true, rq 13, 4⟩; let d : Disp := ⟨true, 0, 1, 8⟩
     wellFormed true m d = true ∧ dynIndexOk true false m = true ∧ (encode true false false m d).reject = false ∧ (encode true false false m d).reloc = false := by decide
+/-- `lea rax, [r12 + r13*4 + 8]` = 4B 8D 44 AC 08, and a VEX carrier `vaddps xmm1, xmm2, [rax]` = C5 E8 58 08 (2-byte prefix) -/
+example : toBytes true ⟨false, [0x8D], 0, true, 1, 0, false, 0, false⟩ (encode true false false ⟨true, rq 12, true, rq 13, 4⟩ ⟨true, 0, 1, 8⟩)
+    = [0x4B, 0x8D, 0x44, 0xAC, 0x08] := by decide
+example : toBytes true ⟨true, [0x58], 1, false, 1, 0, false, 2, false⟩ (encode true false false ⟨true, rq 0, false, Reg.zero, 0⟩ ⟨false, 0, 0, 0⟩)
+    = [0xC5, 0xE8, 0x58, 0x08] := by decide
+example : (parse true true 1 [0xC5, 0xE8, 0x58, 0x08]).map (fun p => (p.vvvv, p.reg, p.rm, p.md, p.map)) = some (2, 1, 0, 0, 1) := by decide
 /-- `[rax*3]` written as `rax + rax*2` comes out of `clean` as index rax*3 and is split into rax + rax*2 -/
 example : clean false ⟨[rq 0], [(rq 0, 2)]⟩ = some (none, some (rq 0, 3)) := by decide
 /-- a dynamic base `[Rq(n)]`, n = 13 at run time -/
